@@ -19,6 +19,7 @@ package refcount
 //@ ghostmap drun: ref -> ref owned
 //@ ghostmap dpred: ref -> ref by drun
 //@ ghostmap rsown: ref -> ref owned
+//@ ghostmap accret: ref -> ref local
 //
 //@ object RefCount
 //@   props C08 C09 C10 C13
@@ -107,6 +108,7 @@ package refcount
 //@   opt frame = skip
 //@   opt breaks = N5
 //@   requires r != nil
+//@   ensures bumped: r.nonce != old(r.nonce)
 //@   ghost go 1: downer(doneCh) := r
 //@   ghost go 1: drun(doneCh) := me
 //@   ghost go 1: dpred(doneCh) := waitCh
@@ -121,6 +123,7 @@ package refcount
 //@   assert select 1: selects(waitCh) && selects(done(ctx))
 //@   assert callback 1: handover: waitCh == nil || closed(waitCh)
 //@   ghost close *: drun(doneCh) := nil
+//@   ensures norelleak: valRel != nil && valRel != r.resolver ==> calls(valRel) > old(calls(valRel)) || written(r.valueRel)
 //
 // The closures handed to the resolver: released() takes the lock (TryLock or a new goroutine) and restarts
 // resolution only if the value it belongs to is still the current one (nonce).
@@ -135,6 +138,7 @@ package refcount
 //@   opt frame = skip
 //@   requires r != nil
 //@   requires lock
+//@   assert unlock 1: afresh: csold(r.nonce) == nonce ==> r.nonce != csold(r.nonce)
 //
 //@ func (*RefCount).AddRefPromise
 //@   props C10
@@ -204,15 +208,26 @@ package refcount
 //@   requires r != nil && ctx != nil && cb != nil
 //@   localmonitor bcast guards currVal, currErr, currResolved, currNonce, currComplete
 //@   lbounded currNonce
+//@   lghost lasterr: ref
+//@   lghost lastdone: bool
+//@   lghost cbok: bool
+//@   ghost init bcast: cbok := false
+//@   ghost init bcast: lastdone := false
+//@   ghost init bcast: lasterr := nil
 //@   assert select 1: selects(waitCh) && selects(done(ctx)) && waitCh != nil
 //@   loop 1 invariant inv: true
+//@   ensures provenance: (result == context.Canceled && cancelled(ctx)) || (lastdone && result == lasterr) || (cbok && result == accret(cb))
 //
 //@ closure (*RefCount).Access$2
 //@   props C10
+//@   ghost exit: cbok := false
+//@   ghost exit: lasterr := err
+//@   ghost exit: lastdone := err != nil || complete
 //@   assert exit: waitCh != nil && waitCh == bcast.ch && gettime(waitCh) == now() && val == currVal && err == currErr && resolved == currResolved && nonce == currNonce && complete == currComplete
 //
 //@ closure (*RefCount).Access$5
 //@   props C10
+//@   ghost exit: cbok := sameNonce
 //@   assert exit: sameNonce == (currNonce == nonce)
 //
 //@ func (*RefCount).Access$1
@@ -220,6 +235,9 @@ package refcount
 //@   opt frame = skip
 //@   localmonitor bcast guards currVal, currErr, currResolved, currNonce, currComplete
 //@   lbounded currNonce
+//@   lghost lasterr: ref
+//@   lghost lastdone: bool
+//@   lghost cbok: bool
 //@   captured bcast != nil
 //
 //@ closure (*RefCount).Access$1$1
@@ -234,3 +252,4 @@ package refcount
 //
 //@ closure (*RefCount).Access$4
 //@   props C10
+//@   ghost callbackret 1: accret(cb) := ret0
